@@ -231,6 +231,8 @@ def run(ctx: RuleContext, p: Program) -> None:
     ctx.try_rule(orient.rule_orient, p, 'ORIENT')
     from . import presence
     ctx.try_rule(presence.rule_presence_truth, p, 'PRESENCE-TRUTH')
+    from . import idxspace
+    ctx.try_rule(idxspace.rule_idx_space, p, 'IDX-SPACE')
     ctx.not_decided += ['full separator arithmetic for every (index, arity, position)', 'store block boundaries (C07)',
                         'identity of tokens outside the edit window (runtime)']
     ctx.assumptions += ['TokenStore.insert_after/insert_before/remove/splice semantics (C07)']
